@@ -32,8 +32,18 @@ var Ops = []struct {
 		return n.ToDFA().Minimize().EliminateDeadStates().ReindexStates().String()
 	}},
 	{"parse-one-dfa", func() string { return parseDigest(specOne, true, false) }},
+	{"pattern-class", func() string { return patternDigest(`\p{Lu}+[[:alpha:]]\d`) }},
+	{"pattern-negated-class", func() string { return patternDigest(`\P{Lu}[^[:alpha:]]+\D`) }},
 	{"parse-bad", func() string { return parseDigest(specBad, false, false) }},
 	{"parse-three-lalr", func() string { return parseDigest(specThree, false, true) }},
+}
+
+func patternDigest(p string) string {
+	n, err := nfa.Parse(p)
+	if err != nil {
+		return "ERROR " + err.Error()
+	}
+	return n.ToDFA().Minimize().EliminateDeadStates().String()
 }
 
 func parseDigest(text string, dfa, lalr bool) string {
